@@ -369,6 +369,71 @@ pub fn handle(op: &str, a: &[&str]) -> Option<Resp> {
             }
             Some(Resp::with(obs, fail))
         }
+        // lossy evaluators on a value built directly (struct literals, not the parser): entries may be
+        // empty — an entry without alternatives has no satisfied alternative, so the field is unsatisfied
+        ("rel.saty", [spec, asg]) => {
+            let assign_txt = dec_assign(asg)?;
+            let mut assign: Vec<(String, Version)> = vec![];
+            for (p, v) in &assign_txt {
+                assign.push((p.clone(), Version::from_str(v).ok()?));
+            }
+            let mut field: Vec<Vec<RefRel>> = vec![];
+            let mut val: Vec<Vec<debian_control::lossy::Relation>> = vec![];
+            if *spec != "-" {
+                for e in spec.split(';') {
+                    let mut re = vec![];
+                    let mut ve = vec![];
+                    if e != "~" {
+                        for alt in e.split('|') {
+                            let parts: Vec<&str> = alt.split('/').collect();
+                            let name = ds(parts[0])?;
+                            let ver = if parts.len() == 3 {
+                                let (vc, sym) = match parts[1] {
+                                    "ge" => (VersionConstraint::GreaterThanEqual, ">="),
+                                    "le" => (VersionConstraint::LessThanEqual, "<="),
+                                    "eq" => (VersionConstraint::Equal, "="),
+                                    "gt" => (VersionConstraint::GreaterThan, ">>"),
+                                    "lt" => (VersionConstraint::LessThan, "<<"),
+                                    _ => return None,
+                                };
+                                let vt = ds(parts[2])?;
+                                Some((vc, sym.to_string(), vt.clone(), Version::from_str(&vt).ok()?))
+                            } else if parts.len() == 1 {
+                                None
+                            } else {
+                                return None;
+                            };
+                            re.push(RefRel { name: name.clone(), ver: ver.as_ref().map(|(_, sym, vt, _)| (sym.clone(), vt.clone())) });
+                            let mut r = debian_control::lossy::Relation::new();
+                            r.name = name;
+                            r.version = ver.map(|(vc, _, _, v)| (vc, v));
+                            ve.push(r);
+                        }
+                    }
+                    field.push(re);
+                    val.push(ve);
+                }
+            }
+            let r = YRelations(val);
+            let map: HashMap<String, Version> = assign.iter().cloned().collect();
+            let closure = |n: &str| -> Option<Version> { assign.iter().find(|(p, _)| p == n).map(|(_, v)| v.clone()) };
+            let via_map = |n: &str| -> Option<Version> { map.lookup_version(n).map(|c| c.into_owned()) };
+            let pair: Option<(String, Version)> = if assign.len() == 1 { Some(assign[0].clone()) } else { None };
+            let ym = guard(|| r.satisfied_by(via_map));
+            let yc = guard(|| r.satisfied_by(closure));
+            let yp = pair.as_ref().map(|p| guard(|| r.satisfied_by(|n: &str| p.lookup_version(n).map(|c| c.into_owned()))));
+            // the per-entry / per-alternative reading of the same value
+            let ye = guard(|| r.0.iter().all(|e| e.iter().any(|x| x.satisfied_by(closure))));
+            let l = format!("{}{}{}{}", show(ym), show(yc), yp.map(show).unwrap_or('-'), show(ye));
+            let mut fail = None;
+            if let Some(want) = ref_sat(&field, &assign_txt) {
+                let w = if want { '1' } else { '0' };
+                if l.chars().any(|c| c != '-' && c != w) {
+                    fail = Some(format!("expected {} from the lossy evaluators on the built value, got Y:{}", w, l));
+                }
+            }
+            Some(Resp::with(format!("Y:{}", l), fail))
+        }
         ("rel.sat", [t, y, asg]) => {
             let text = ds(t)?;
             let assign_txt = dec_assign(asg)?;
@@ -630,6 +695,20 @@ pub fn generate_c12(tier: &str, seed: u64, out: &mut Out) {
     // the fields of part 4 as well (errors, odd layouts: model = code, no oracle)
     for f in odd {
         out.req("rel.satsv", &[es(f), enc_assign(&[("a", "2")])]);
+    }
+    // ---- 4c. lossy values built directly, entries without alternatives included (after seeded
+    //      change C12-r5m2): every list of <= 3 entries over {empty, a, a (>= 2) | b, b (= 2)}
+    let ypool = ["~", "x61", "x61/ge/x32|x62", "x62/eq/x32"];
+    let mut yspecs: Vec<String> = vec!["-".to_string()];
+    for e in lists_upto(&ypool, 3) {
+        if !e.is_empty() {
+            yspecs.push(e.join(";"));
+        }
+    }
+    for spec in &yspecs {
+        for a in [vec![], vec![("a", "2")], vec![("a", "1")], vec![("a", "3"), ("b", "2")], vec![("b", "2")], vec![("a", "1"), ("b", "1")]] {
+            out.req("rel.saty", &[spec.clone(), enc_assign(&a)]);
+        }
     }
     // ---- 5. seeded random fields over the version pool
     let names = ["a", "b", "libfoo-dev", "c++", "x.y"];
